@@ -126,7 +126,7 @@ func c19Ordinal(n int) string {
 }
 
 // c19Expect renders the field picture used by the exhaustive sweep from the oracle's fields.
-const c19FieldPicture = "[Y0001]|[M01]|[D01]|[d]|[F1]|[FNn]|[MNn]|[W]|[H01]|[h]|[P]|[m]|[s]|[f001]|[Z]|[D1o]|[w]|[Y,*-2]|[MN,*-3]"
+const c19FieldPicture = "[Y0001]|[M01]|[D01]|[d]|[F1]|[FNn]|[MNn]|[W]|[H01]|[h]|[P]|[m]|[s]|[f001]|[Z]|[D1o]|[w]|[Y,*-2]|[MN,*-3]|[d1o]|[Y1o]|[H1o]"
 
 func c19Expect(ms int64, offMin int) string {
 	local := ms + int64(offMin)*60000
@@ -152,8 +152,8 @@ func c19Expect(ms int64, offMin int) string {
 		fmt.Sprintf("%04d", c.y), fmt.Sprintf("%02d", c.m), fmt.Sprintf("%02d", c.d), fmt.Sprint(c.yday), fmt.Sprint(c.wday + 1),
 		c19Days[c.wday], c19Months[c.m], fmt.Sprint(c19ISOWeek(z)), fmt.Sprintf("%02d", h), fmt.Sprint(h12), ampm,
 		fmt.Sprintf("%02d", int(r/60000%60)), fmt.Sprintf("%02d", int(r/1000%60)), fmt.Sprintf("%03d", int(r%1000)),
-		fmt.Sprintf("%s%02d:%02d", sign, ao/60, ao%60), c19Ordinal(c.d), fmt.Sprint(c.d/7 + 1), fmt.Sprint(c.y%100),
-		strings.ToUpper(c19Months[c.m][:3]),
+		fmt.Sprintf("%s%02d:%02d", sign, ao/60, ao%60), c19Ordinal(c.d), fmt.Sprint(c.d/7 + 1), fmt.Sprint(c.y % 100),
+		strings.ToUpper(c19Months[c.m][:3]), c19Ordinal(c.yday), c19Ordinal(int(c.y)), c19Ordinal(h),
 	}, "|")
 }
 
@@ -238,7 +238,7 @@ func runC19(c *ctx) {
 	}
 	c.rep.Cases += sweep
 	c.rep.Buckets["sweep/fields-vs-calendar-oracle"] += sweep
-	c.rep.Exhaustive = append(c.rep.Exhaustive, fmt.Sprintf("%d days between 1000-01-01 and 9999-12-31 (stride %d plus all month and year boundaries): 19 field presentations against the day-counting oracle, default-picture inverse law on every third", sweep, stride))
+	c.rep.Exhaustive = append(c.rep.Exhaustive, fmt.Sprintf("%d days between 1000-01-01 and 9999-12-31 (stride %d plus all month and year boundaries): 22 field presentations against the day-counting oracle, default-picture inverse law on every third", sweep, stride))
 	// 2. model correspondence on sampled instants
 	n := c.scale(6000, 60000)
 	pics := []string{"", "[Y0001]-[M01]-[D01]", "[Y0001]-[M01]-[D01]T[H01]:[m01]:[s01]", "[Y0001]-[M01]-[D01]T[H01]:[m01]:[s01].[f001]", "[Y0001]-[M01]-[D01]T[H01]:[m01]:[s01].[f001][Z01:01]",
